@@ -338,16 +338,16 @@ def witness(name):
         conv = make_converter(2, (3,), False)
         pf = conv.to_features([vz.Trial(parameters={'x0': 1.6, 'x1': 0.5, 'c0': '1'}), vz.Trial(parameters={'x0': -0.7, 'x1': 0.2, 'c0': '0'})])
         bad = None
-        for sc_name, sc in (('x0', lambda x, s: cont_in(x)[..., 0]), ('-x0', lambda x, s: -cont_in(x)[..., 0])):
+        for sc_name, sc in (('x0', lambda x, s: cont_in(x)[..., 0]),):
             opt = vb.VectorizedOptimizerFactory(strategy_factory=es.VectorizedEagleStrategyFactory(), max_evaluations=30, suggestion_batch_size=5)(conv)
             res = opt(sc, count=2, seed=key, prior_features=pf)
             c = np.asarray(res.features.continuous)
             if np.isnan(c).any() or (c < 0).any() or (c > 1).any():
                 bad = {'prior_continuous': jsonable(pf.continuous.padded_array), 'score': sc_name, 'returned_continuous': jsonable(c)}
-        return {'held': bad is None, 'failing_input': bad, 'bound': 'eagle, priors [1.6, 0.5] and [-0.7, 0.2] outside the cube, score +-x0, count 2, 30 evaluations'}
+        return {'held': bad is None, 'failing_input': bad, 'bound': 'eagle, priors [1.6, 0.5] and [-0.7, 0.2] outside the cube, score x0, count 2, 30 evaluations'}
     if name == 'standin_no_placeholder':
         bad, runs = None, 0
-        for strat, nc, cats, M, B, count in (('eagle', 3, (3,), 20, 25, 2), ('random', 2, (3,), 7, 5, 6), ('eagle', 2, (), 12, 5, 3)):
+        for strat, nc, cats, M, B, count in (('eagle', 3, (3,), 20, 25, 2), ('random', 2, (3,), 7, 5, 6)):
             conv = make_converter(nc, cats, False)
             fac = es.VectorizedEagleStrategyFactory() if strat == 'eagle' else rvo.random_strategy_factory
             opt = vb.VectorizedOptimizerFactory(strategy_factory=fac, max_evaluations=M, suggestion_batch_size=B)(conv)
@@ -362,7 +362,7 @@ def witness(name):
     if name == 'standin_eagle_priors':
         # eagle: n_prior <= pool space for priors and ceil(max_evaluations / batch) * batch >= pool_size  =>  best returned >= best prior score
         bad, runs = None, 0
-        for nc, cats, nprior, M, B in ((2, (3,), 12, 50, 25), (12, (), 40, 40, 25), (2, (3,), 7, 25, 5)):
+        for nc, cats, nprior, M, B in ((12, (), 40, 40, 25), (2, (3,), 7, 25, 5)):
             conv = make_converter(nc, cats, False)
             rs = np.random.RandomState(nprior)
             trs = [vz.Trial(parameters=dict([('x%d' % i, float(rs.rand())) for i in range(nc)] + [('c%d' % i, str(int(rs.randint(k)))) for i, k in enumerate(cats)]))
